@@ -1390,12 +1390,13 @@ class Partitions(Histories):
 
 class C14(Check):
     pid = 'C14'
-    translators = []
+    translators = ['gen_cbm14']     # Gen/Cbm14Gen.v: statement order of ABCCBMPropertyGraph.rollback (behaviour flag of the model)
     model_targets = ['Model/Cbm14Store.vo', 'Model/Cbm14Check.vo', 'Model/Cbm14Spec.vo', 'Model/Cbm14SpecCheck.vo']
     streams = [Histories(), RealModels(), Partitions()]
     trusted_base = [
         'Coq 8.16.1 kernel (coqc), vm_compute for the correspondence evaluation; no native_compute',
         'Print Assumptions of every C14 theorem: Closed under the global context (no axioms)',
+        'translator/gen_cbm14.py (Python ast -> Gen/Cbm14Gen.v: which of delete_graph / cast_graph comes first in rollback), fail-closed',
         'harness/c14.py + harness/common.py: the borrowing class MemCBM (merge_adm, unmerge_adm, _update_node_delegations of '
         'Neo4jCBMGraph run over NetworkXPropertyGraph), neo4j_cbm.Neo4jADMGraph := NetworkXADMGraph, counter in place of uuid4, '
         'canonical snapshots, interning of strings to N, cases.v writer',
